@@ -74,6 +74,23 @@ struct SessExec<'p> {
     thunks: Vec<(usize, Thunk<'p>)>,
     values: Vec<(usize, Value<'p>)>,
     max_stack: usize,
+    ext_names: Vec<String>,
+}
+
+/// `Program::add_ext_var` with a code value loaded as the virtual file `<ext:NAME>`; a name can be set only once.
+fn add_ext_code(sess: &mut Session<'_>, names: &mut Vec<String>, name: &str, code: &str) -> bool {
+    if names.iter().any(|n| n == name) {
+        return false;
+    }
+    match sess.load_virt_file(&format!("<ext:{name}>"), code.as_bytes().to_vec()) {
+        Some(t) => {
+            let n = sess.program().intern_str(name);
+            sess.program_mut().add_ext_var(n, &t);
+            names.push(name.to_string());
+            true
+        }
+        None => false,
+    }
 }
 
 fn new_session<'p>(arena: &'p Arena, h: &History) -> Session<'p> {
@@ -343,6 +360,12 @@ impl<'p> SessExec<'p> {
                 }
                 none
             }
+            Req::AddExtVar { name, code } => {
+                if !add_ext_code(&mut self.sess, &mut self.ext_names, name, code) {
+                    res.noop = true;
+                }
+                none
+            }
             Req::SetMaxStack(n) => {
                 self.max_stack = *n;
                 self.sess.program_mut().set_max_stack(*n);
@@ -452,7 +475,14 @@ impl<'p> Fresh<'p, '_> {
 
 fn fresh_outcome(h: &History, resolved: &[Resolved], r: usize, limit: usize, err: &mut ErrReader) -> Result<SOut, String> {
     let arena = Arena::new();
-    let sess = new_session(&arena, h);
+    let mut sess = new_session(&arena, h);
+    let mut names: Vec<String> = h.world.ext.iter().map(|(n, _, _)| n.clone()).collect();
+    for (k, op) in h.ops.iter().enumerate().take(r) {
+        if let (Req::AddExtVar { name, code }, false) = (&op.req, resolved[k].noop) {
+            add_ext_code(&mut sess, &mut names, name, code);
+        }
+    }
+    let _ = err.take();
     let mut f = Fresh { sess, h, resolved, thunks: HashMap::new(), values: HashMap::new() };
     let res = &resolved[r];
     f.sess.program_mut().set_max_stack(INF_STACK);
@@ -512,7 +542,7 @@ pub fn check_history(h: &History, st: &mut SessStats, err: &mut ErrReader) -> Op
     let arena = Arena::new();
     let sess = new_session(&arena, h);
     let _ = err.take();
-    let mut ex = SessExec { sess, thunks: Vec::new(), values: Vec::new(), max_stack: 500 };
+    let mut ex = SessExec { sess, thunks: Vec::new(), values: Vec::new(), max_stack: 500, ext_names: h.world.ext.iter().map(|(n, _, _)| n.clone()).collect() };
     let mut outs = Vec::new();
     let mut resolved = Vec::new();
     let mut limits = Vec::new();
